@@ -13,6 +13,9 @@
 #include "thread.h"
 
 #include <string.h>
+#ifdef NNG_VERIF
+#include <stdlib.h>
+#endif
 
 struct nni_id_entry {
 	uint64_t key;
@@ -75,6 +78,81 @@ nni_id_map_fini(nni_id_map *m)
 // the capacity is always a power of two.
 #define ID_NEXT(m, j) ((((j) * 5) + 1) & (m->id_cap - 1))
 #define ID_INDEX(m, j) ((j) & (m->id_cap - 1))
+
+#ifdef NNG_VERIF
+// Structural recount of the open-addressing table: every live key must be
+// reachable by its probe sequence, and count/load/skips must equal what
+// re-probing every live key yields.
+static void
+id_verif_check(nni_id_map *m, const char *where)
+{
+	static unsigned tick;
+	uint32_t        count = 0;
+	uint32_t        load  = 0;
+	uint32_t       *skips;
+
+	if (m->id_cap == 0 || m->id_entries == NULL) {
+		if (m->id_count != 0) {
+			nni_verif_fail("C18", "idhash-count-no-table %s", where);
+		}
+		return;
+	}
+	if ((m->id_cap > 64) && ((++tick & 63) != 0)) {
+		return;
+	}
+	if ((m->id_cap & (m->id_cap - 1)) != 0) {
+		nni_verif_fail("C18", "idhash-cap-not-pow2 %s", where);
+		return;
+	}
+	if ((skips = calloc(m->id_cap, sizeof(uint32_t))) == NULL) {
+		return;
+	}
+	for (uint32_t i = 0; i < m->id_cap; i++) {
+		size_t   index;
+		uint32_t steps = 0;
+		if (m->id_entries[i].val == NULL) {
+			continue;
+		}
+		count++;
+		index = ID_INDEX(m, m->id_entries[i].key);
+		for (;;) {
+			load++;
+			if (index == i) {
+				break;
+			}
+			skips[index]++;
+			index = ID_NEXT(m, index);
+			if (++steps > m->id_cap) {
+				nni_verif_fail("C18",
+				    "idhash-key-unreachable %s key=%llu", where,
+				    (unsigned long long) m->id_entries[i].key);
+				free(skips);
+				return;
+			}
+		}
+	}
+	if (count != m->id_count) {
+		nni_verif_fail("C18", "idhash-count %s have=%u recount=%u",
+		    where, m->id_count, count);
+	}
+	if (load != m->id_load) {
+		nni_verif_fail("C18", "idhash-load %s have=%u recount=%u",
+		    where, m->id_load, load);
+	}
+	for (uint32_t i = 0; i < m->id_cap; i++) {
+		if (skips[i] != m->id_entries[i].skips) {
+			nni_verif_fail("C18",
+			    "idhash-skips %s slot=%u have=%u recount=%u", where,
+			    i, m->id_entries[i].skips, skips[i]);
+			break;
+		}
+	}
+	free(skips);
+}
+#define ID_VERIF_CHECK(m, w) id_verif_check(m, w)
+#else
+#define ID_VERIF_CHECK(m, w) ((void) 0)
+#endif
 
 static size_t
 id_find(nni_id_map *m, uint64_t id)
@@ -258,6 +336,7 @@ nni_id_remove(nni_id_map *m, uint64_t id)
 
 	// Shrink -- but it's ok if we can't.
 	(void) id_resize(m);
+	ID_VERIF_CHECK(m, "remove");
 
 	return (0);
 }
@@ -277,6 +356,7 @@ nni_id_set(nni_id_map *m, uint64_t id, void *val)
 	if ((index = id_find(m, id)) != (size_t) -1) {
 		ent      = &m->id_entries[index];
 		ent->val = val;
+		ID_VERIF_CHECK(m, "set-replace");
 		return (0);
 	}
 
@@ -293,6 +373,7 @@ nni_id_set(nni_id_map *m, uint64_t id, void *val)
 			m->id_count++;
 			ent->key = id;
 			ent->val = val;
+			ID_VERIF_CHECK(m, "set-insert");
 			return (0);
 		}
 		// Record the skip count.  This being non-zero informs
